@@ -217,6 +217,11 @@ class Check:
         """run self.cases (or cases) on both sides, compare result lines"""
         cases = cases if cases is not None else self.cases
         lines = [c[0] for c in cases]
+        if os.environ.get('VERIF_DUMP_CASES') and not impl_extra and not model_extra:
+            os.makedirs(os.environ['VERIF_DUMP_CASES'], exist_ok=True)
+            grp = os.path.basename(os.path.dirname(model)).replace('model_', '').replace('_fast', '')
+            with open(os.path.join(os.environ['VERIF_DUMP_CASES'], grp + '.cases'), 'a') as f:
+                for l, c in cases: f.write(c + '\t' + l + '\n')
         t = time.time()
         with cf.ThreadPoolExecutor(max_workers=2) as ex:
             fi = ex.submit(run_cases, impl, lines, impl_extra, 8)
